@@ -483,7 +483,7 @@ Eval vm_compute in (%s).
     })
 
 
-THEOREMS = []
+THEOREMS = ["C46_merge_is_an_interleaving", "C46_concat_is_append", "C46_zip_is_positional", "C46_hub_routes_every_element"]
 
 META = {
     "category": "proof",
